@@ -111,6 +111,20 @@ func c01Op(c *Ctx, r *Report, a *Anchors) {
 				}
 				r.check("C01.OP", fnName(fn)+": operation source single-operation fallback", valPos(t), okSrc && guarded, "the fallback may take an entry of exe.Ops only when len(exe.Ops) == 1: with several operations and no (or an unknown) name nothing may be executed")
 			default:
+				if isNilConst(lf.val) {
+					// "no such operation": fine where every use of the value is behind a nil test of it
+					okNil := true
+					for _, b := range fn.Blocks {
+						for _, in := range b.Instrs {
+							if fa, ok := in.(*ssa.FieldAddr); ok && fa.X == v && !provenNonNil(v, b, 0) {
+								okNil = false
+							}
+						}
+					}
+					nLeaves--
+					r.check("C01.OP", fnName(fn)+": a missing operation is not used", valPos(v), okNil, "the operation value can be nil (no operation of that name) where its fields are read")
+					continue
+				}
 				r.check("C01.OP", fnName(fn)+": operation source "+shortPath(vpath(lf.val)), valPos(lf.val), false, "the operation value has a source other than exe.Ops[opName] or the single-operation fallback")
 			}
 		}
